@@ -24,7 +24,7 @@ pub struct Flags {
     pub funcs: bool,
     /// allow break/continue inside a block that is (part of) an operand
     pub brk_in_operand: bool,
-    /// 0 = none, 1 = lambda-heavy, 2 = option/?/!-heavy
+    /// 0 = none, 1 = lambda-heavy, 2 = option/?/!-heavy, 3 = shadowing-heavy
     #[serde(default)]
     pub bias: u8,
     /// statement budget of the main block
@@ -149,7 +149,7 @@ impl<'a> G<'a> {
 
     fn var_name(&mut self) -> String {
         // with shadowing enabled, sometimes reuse a visible variable's name
-        if self.fl.shadowing && self.t.flip(1, 6) {
+        if self.fl.shadowing && self.t.flip(1, if self.fl.bias == 3 { 2 } else { 6 }) {
             let names: Vec<String> = self.scopes.iter().flatten().map(|v| v.name.clone()).filter(|n| n != "fuel").collect();
             if !names.is_empty() {
                 let i = self.t.n(names.len());
@@ -1242,7 +1242,7 @@ impl<'a> G<'a> {
     }
 
     fn loop_var(&mut self) -> String {
-        if self.fl.loop_var_shadowing && self.t.flip(1, 5) {
+        if self.fl.loop_var_shadowing && self.t.flip(1, if self.fl.bias == 3 { 2 } else { 5 }) {
             let names: Vec<String> = self.visible().into_iter().map(|v| v.name).filter(|n| n != "fuel").collect();
             if !names.is_empty() {
                 self.label("loop-var-shadows");
